@@ -42,6 +42,7 @@ type WorkerLoop struct {
 	leanHelixTerm               *leanhelixterm.LeanHelixTerm
 	onCommitCallback            interfaces.OnCommitCallback
 	onNewConsensusRoundCallback interfaces.OnNewConsensusRoundCallback
+	verif                       verifWorkerState // empty unless built with tag verif
 }
 
 func NewWorkerLoop(
@@ -69,8 +70,10 @@ func NewWorkerLoop(
 }
 
 func (lh *WorkerLoop) Run(ctx context.Context) {
+	ctx = lh.verifWorkerCtx(ctx) // no-op unless built with tag verif
 	lh.logger.Debug("LHFLOW LHMSG WORKERLOOP START LISTENING NOW")
 	for {
+		lh.verifAtSelect(ctx) // no-op unless built with tag verif
 		select {
 		case <-ctx.Done(): // system shutdown
 			lh.logger.Info("LHFLOW WORKERLOOP DONE STOPPED LISTENING, SHUTDOWN START")
